@@ -18,11 +18,19 @@ MAP = "cobald.daemon.config.mapping"
 S = z3.StringVal
 
 LOADED = z3.Function("entry_point_load", Z.Val, Z.Val)          # what entry.load() returns: a function of the entry point (assumed)
-EAGER = z3.Function("yaml_tag_eager", Z.Val, z3.BoolSort())     # the `eager` flag of the tag settings fetched for a plugin
 
-# ---- the loaded plugin object: may or may not have a `.s` template factory ---------------------------------------------------------
-PluginObj = TAbs("loaded-plugin", fields={}, events=False)
+# ---- tag settings (a NamedTuple instance) and the loaded plugin object ------------------------------------------------------------------
+TAG = "__cobald_yaml_tag__"
+Settings = TObj(PLG + ":YAMLTagSettings", eager=TBool())
+# the loaded plugin: may or may not have a `.s` template factory (open attribute), may or may not be marked with tag settings
+PluginObj = TAbs("loaded-plugin", fields={}, events=False, optional={TAG: Settings})
 PluginObj.open_attrs = True          # `.s` either exists (attr_of(plugin, "s")) or raises AttributeError - both explored
+
+
+def eager_of(c, t, heap):
+    """the eagerness the tag settings of object `t` stand for in `heap`: its mark's `eager` if it is marked, else the default False"""
+    v = c.view_term(t, PluginObj, heap)
+    return z3.If(v.has(TAG), Z.Val.b(v.field(TAG).eager.t), z3.BoolVal(False))
 
 
 def _load_after(c, ctx, outcome, value, self):
@@ -31,7 +39,7 @@ def _load_after(c, ctx, outcome, value, self):
 
 _ep_load = amethod("EntryPoint.load", {"self": None}, doc="entrypoints (assumed): imports and returns the object the entry point names - a function of the entry point",
                    result=PluginObj, ensures=lambda c, self, result: result.t == LOADED(self.t), raises={"BaseException": lambda c, self, exc: True})
-EntryPoint = TAbs("EntryPoint", fields=dict(name=TStr(), extras=TAny()), methods={"load": _ep_load}, events=False)
+EntryPoint = TAbs("EntryPoint", fields=dict(name=TStr(), extras=TAny(), module_name=TStr(), object_name=TStr()), methods={"load": _ep_load}, events=False)
 _ep_load.params["self"] = EntryPoint
 EntryPoints = TSeq(EntryPoint, "list")
 
@@ -48,18 +56,56 @@ def _get_entrypoints(I, args, kwargs):
     return seq
 
 
-# ---- tag settings ----------------------------------------------------------------------------------------------------------------------
-Settings = TAbs("yaml-tag-settings", fields=dict(eager=TBool()), events=False)
-
-
-@contract(PLG + ":YAMLTagSettings.fetch", props=["C05", "C18"], skip_body=True, kind="abstract")
+# ---- YAMLTagSettings.fetch / .mark / yaml_tag: real bodies -------------------------------------------------------------------------------
+@contract(PLG + ":YAMLTagSettings.fetch", props=["C05", "C18"])
 class settings_fetch:
-    """the settings a plugin was marked with (`__cobald_yaml_tag__`), else the defaults: a function of the plugin (assumed from reading)"""
-    params = {"cls": None, "plugin": TAny()}
+    """the settings a plugin was marked with (its `__cobald_yaml_tag__`), else NEW default settings (lazy); nothing is modified"""
+    params = {"cls": lambda ctx: ctx.repo.get(PLG + ":YAMLTagSettings"), "plugin": PluginObj}
     result = Settings
 
+    def writes(c, cls, plugin):
+        return []
+
     def ensures(c, cls, plugin, result):
-        return Z.Val.b(result.eager.t) == EAGER(plugin.t)
+        marked = c.old(plugin).has(TAG)
+        return {"a-marked-plugin-yields-its-own-settings": c.Implies(marked, result.t == c.old(plugin).field(TAG).t),
+                "an-unmarked-plugin-yields-new-default-settings-which-are-lazy": c.Implies(c.Not(marked), c.And(Z.Val.id(result.t) >= c.ctx.alloc0, c.Not(Z.Val.b(result.eager.t)))),
+                "so-the-eagerness-is-the-marks-else-lazy": Z.Val.b(result.eager.t) == eager_of(c, plugin.t, c.old_heap)}
+
+
+@contract(PLG + ":YAMLTagSettings.mark", props=["C05"])
+class settings_mark:
+    """marks the plugin with THESE settings (and touches nothing else)"""
+    params = {"self": Settings, "plugin": PluginObj}
+
+    def writes(c, self, plugin):
+        return [(plugin, TAG), (plugin, "has:" + TAG)]
+
+    def ensures(c, self, plugin):
+        return {"the-plugin-now-carries-these-settings": c.And(plugin.has(TAG), plugin.field(TAG).t == self.t),
+                "the-settings-are-unchanged": c.unchanged(self, "eager")}
+
+
+@contract(PLG + ":yaml_tag.mark_settings", props=["C05"])
+class yaml_tag_mark:
+    """the decorator returned by yaml_tag(eager=e): marks the plugin with NEW settings whose eagerness is e, and returns the plugin itself"""
+    params = {"plugin": PluginObj}
+    result = TAny()
+
+    def closure_env(ctx, I, bound):
+        e = ctx.typed(z3.Const("p_env_eager", Z.Val), TBool())
+        ctx.ghost["c05_env_eager"] = e
+        return [{"eager": e}]
+    closure_env = staticmethod(closure_env)
+
+    def writes(c, plugin):
+        return [(plugin, TAG), (plugin, "has:" + TAG)]
+
+    def ensures(c, plugin, result):
+        e = c.ctx.ghost["c05_env_eager"]
+        return {"returns-the-plugin-itself": result.t == plugin.t,
+                "marked-with-new-settings-of-the-requested-eagerness": c.And(plugin.has(TAG), Z.Val.id(plugin.field(TAG).t) >= c.ctx.alloc0, plugin.field(TAG).eager.t == e.t),
+                "so-fetch-will-report-that-eagerness": eager_of(c, plugin.t, c.new_heap) == Z.Val.b(e.t)}
 
 
 # ---- the loader class that receives the constructors -------------------------------------------------------------------------------------
@@ -102,7 +148,7 @@ def _registered_right(c, L, entry):
     return c.And(reg["loader"].t == L.loader.t,
                  Z.Val.s(reg["tag"].t) == z3.Concat(S("!"), Z.Val.s(entry.name.t)),
                  z3.Or(ft == plugin, ft == Z.attr_of(plugin, S("s"))),
-                 Z.Val.b(ctx.to_val(eager).t) == EAGER(ft))
+                 Z.Val.b(ctx.to_val(eager).t) == eager_of(c, ft, c.old_heap))
 
 
 @contract(CORE + ":add_constructor_plugins", props=["C18", "C05"])
@@ -117,9 +163,15 @@ class add_constructor_plugins:
     def ensures(c, entry_point_group, loader):
         eps = c.ctx.ghost.get("c18_entry_points")
         done = c.loop_done(0)
+        if getattr(c, "mode", None) != "prove":
+            return {}         # at a call site: the per-entry-point facts live in the iteration contract; a caller learns nothing it could misuse
         return {"the-groups-entry-points-are-read-once-and-every-one-gets-its-iteration": c.And(c.event_at(0) == c.event("get_entrypoints", entry_point_group), done == eps.t) if done is not None and eps is not None else False}
 
     raises = {"RuntimeError": lambda c, entry_point_group, loader, exc: True, "BaseException": lambda c, entry_point_group, loader, exc: True}
+
+    def ghost_call(c, ctx, entry_point_group, loader):
+        ctx.ghost.setdefault("c18_load_steps", []).append(("add_constructor_plugins", entry_point_group, loader))
+    ghost_call = staticmethod(ghost_call)
 
     loops = {0: Loop(
         inv=lambda c, L, i: {"same-loader": L.loader.t == c.old(L.loader).t},
